@@ -192,6 +192,9 @@ func (sw *SessionWindow) Add(data any) {
 			return // unplaceable event: drop instead of fake wall-clock time
 		}
 		if sw.watermark != nil {
+			if sw.watermark.IsFarFuture(timestamp) {
+				return // corrupt timestamp: never changes a result (nor hijacks the key's session)
+			}
 			sw.watermark.UpdateEventTime(timestamp)
 			if sw.watermark.IsEventTimeLate(timestamp) {
 				allowedLateness := sw.config.AllowedLateness
